@@ -387,16 +387,52 @@ def replay(path):
     """Re-render the stored case, re-run the real tool and the judge, print expectation vs observation."""
     import verif
     meta = json.load(open(os.path.join(path, 'case.json')))
-    pid, case, kw = meta['property'], meta['case'], meta.get('run_args', {})
+    pid, case, kw, kind = meta['property'], meta['case'], meta.get('run_args', {}), meta.get('kind', '')
     ctx = verif.Ctx(pid, 'quick', 1, PROPS.get(pid, {}).get('level', 'exploration'))
+    ctx.known = []          # a replay reports what it sees, known or not
     try:
         ctx.build()
-        out = pipeline.run_cases(ctx.sc, ctx.wire, [case], name='replay', **{k: (tuple(v) if isinstance(v, list) else v) for k, v in kw.items()})
-        print('case', case['key'])
-        print('expectation (WireSem):', json.dumps(case['expect'])[:2000])
-        if out.bad:
-            for b in out.bad:
-                print('REJECTED by the judge:', b['kind'], json.dumps(b['detail'])[:3000])
+        print('case', case['key'], '(' + kind + ')')
+        if kind.startswith('cli:'):
+            import cli
+            c = cli.Cli(ctx.sc, ctx.wire)
+            c.references()
+            evs = c.run_walk(1, case['history'], case['prefixes'])
+            rej, _ = cli.validate(ctx.sc, evs, tuple(case['modes']), case['prefixes'])
+            for e in evs:
+                print('  step', e['step'], e['cmd'], json.dumps(e['args']), 'exit', e['exit'], 'expected', e.get('expected_exit'), json.dumps(e['disk']), e['othermod'])
+            if rej:
+                print('REJECTED by WireCliTrace at step', rej[0][2])
+                print('VIOLATION property=%s replay=%s' % (pid, path))
+                return 1
+            print('history accepted by WireCliTrace (does not reproduce on this tree)')
+            return 0
+        if kind == 'config':
+            import det
+            root = ctx.sc.path('det')
+            o = det.run_config(ctx.wire, os.path.join(root, 'a'), case['program'], case['config'])
+            ref = det.run_config(ctx.wire, os.path.join(root, 'b'), case['program'],
+                                 {'layout': 'module', 'loc': 'short', 'invoke': 'subdir', 'company': 'alone', 'rep': 1})
+            print('  this configuration:', json.dumps({k: o[k] for k in ('exit', 'digest', 'leak', 'bytes')}))
+            print('  reference (module, short, ./app, alone):', json.dumps({k: ref[k] for k in ('exit', 'digest', 'leak', 'bytes')}))
+            if o['exit'] != 0 or o['leak'] or o['digest'] != ref['digest']:
+                print('VIOLATION property=%s replay=%s' % (pid, path))
+                return 1
+            print('same bytes, nothing leaked (does not reproduce on this tree)')
+            return 0
+        if case.get('fam') == 'D':
+            import copydecl
+            copydecl.run(ctx, [case])
+        else:
+            kw = {k: (tuple(v) if isinstance(v, list) else v) for k, v in kw.items()}
+            if case.get('fam') == 'E':
+                kw.update(runtime=False, notes=True)
+            out = pipeline.run_cases(ctx.sc, ctx.wire, [case], name='replay', **kw)
+            print('expectation (specification):', json.dumps(case.get('expect'))[:2000])
+            for b_ in out.bad:
+                print('REJECTED by the judge:', b_['kind'], json.dumps(b_['detail'])[:3000])
+                ctx.res.violations.append((case['key'], path))
+        if ctx.res.violations:
             print('VIOLATION property=%s replay=%s' % (pid, path))
             return 1
         print('observation accepted by the judge (does not reproduce on this tree)')
